@@ -1855,4 +1855,293 @@ theorem hdr_rows (data fractions : List Rat) (upper : Bool) (bufSize : Nat) (row
         exact Or.inr rfl
 
 
+
+/-! ## sum_waveform: area = Σ definitional hit contributions -/
+
+theorem filter_range_interval : ∀ (n lo hi : Nat), hi ≤ n →
+    (List.range n).filter (fun k => decide (lo ≤ k) && decide (k < hi)) = List.range' lo (hi - lo) := by
+  intro n
+  induction n with
+  | zero => intro lo hi h; have : hi = 0 := by omega
+            subst this; simp
+  | succ n ih =>
+    intro lo hi h
+    rw [List.range_succ, List.filter_append]
+    by_cases hh : hi ≤ n
+    · rw [ih lo hi hh]
+      have : ¬ (n < hi) := by omega
+      simp [this]
+    · have hhi : hi = n + 1 := by omega
+      subst hhi
+      have e : (List.range n).filter (fun k => decide (lo ≤ k) && decide (k < n + 1))
+          = (List.range n).filter (fun k => decide (lo ≤ k) && decide (k < n)) := by
+        apply List.filter_congr
+        intro k hk
+        have := List.mem_range.mp hk
+        simp [this]; omega
+      rw [e, ih lo n (Nat.le_refl _)]
+      by_cases hl : lo ≤ n
+      · have e2 : n + 1 - lo = (n - lo) + 1 := by omega
+        simp only [List.filter_cons, hl, decide_true, Nat.lt_succ_self, Bool.and_self, if_true, List.filter_nil]
+        rw [e2, List.range'_concat]
+        congr 2; omega
+      · have e2 : n + 1 - lo = 0 := by omega
+        have e3 : n - lo = 0 := by omega
+        simp [hl, e2, e3]
+
+theorem map_getD_range' (wave : List Rat) : ∀ (m lo : Nat), lo + m ≤ wave.length →
+    (List.range' lo m).map (fun k => wave.getD k 0) = (wave.drop lo).take m := by
+  intro m
+  induction m with
+  | zero => intro lo _; simp
+  | succ m ih =>
+    intro lo h
+    rw [List.range'_succ, List.map_cons, ih (lo+1) (by omega)]
+    rw [List.drop_eq_getElem_cons (by omega : lo < wave.length), List.take_succ_cons]
+    simp [List.getD_eq_getElem?_getD, List.getElem?_eq_getElem (by omega : lo < wave.length)]
+
+
+/-- the samples of `h` inside the peak, by definition, are those with index in `[max 0 (−s), min nA (L − s))`
+when the hit starts `s` samples after the peak start -/
+theorem contribution_interval (p : Peak) (dt : Int) (toPe : List Rat) (h : Hit) (s : Int)
+    (hdt : 0 < dt) (hs : h.time = p.time + s * dt) :
+    contribution p dt toPe h =
+      ((slice h.wave (max 0 (-s)).toNat (min (h.wave.length : Int) (p.length - s)).toNat).map
+        (· * toPe.getD h.channel 0)).sum := by
+  unfold contribution
+  have hP : ∀ k ∈ List.range h.wave.length,
+      (decide (p.time ≤ h.time + (k : Int) * dt) && decide (h.time + (k : Int) * dt < p.time + p.length * dt))
+        = (decide ((max 0 (-s)).toNat ≤ k) && decide (k < (min (h.wave.length : Int) (p.length - s)).toNat)) := by
+    intro k hk
+    have hk' := List.mem_range.mp hk
+    have e1 : (p.time ≤ h.time + (k : Int) * dt) ↔ (0 * dt ≤ (s + k) * dt) := by
+      rw [hs, Int.add_mul]; omega
+    have e2 : (h.time + (k : Int) * dt < p.time + p.length * dt) ↔ ((s + k) * dt < p.length * dt) := by
+      rw [hs, Int.add_mul]; omega
+    have a1 : (0 ≤ s + (k : Int)) ↔ ((max 0 (-s)).toNat ≤ k) := by omega
+    have a2 : (s + (k : Int) < p.length) ↔ (k < (min (h.wave.length : Int) (p.length - s)).toNat) := by omega
+    have f1 := e1.trans ((Int.mul_le_mul_right hdt).trans a1)
+    have f2 := e2.trans ((Int.mul_lt_mul_right hdt).trans a2)
+    simp only [decide_eq_decide.mpr f1, decide_eq_decide.mpr f2]
+  rw [List.filter_congr hP]
+  by_cases hle : (max 0 (-s)).toNat ≤ (min (h.wave.length : Int) (p.length - s)).toNat
+  · rw [filter_range_interval _ _ _ (by omega)]
+    have hm := map_getD_range' h.wave ((min (h.wave.length : Int) (p.length - s)).toNat - (max 0 (-s)).toNat)
+      (max 0 (-s)).toNat (by omega)
+    have hc : (List.range' (max 0 (-s)).toNat ((min (h.wave.length : Int) (p.length - s)).toNat - (max 0 (-s)).toNat)).map
+          (fun k => h.wave.getD k 0 * toPe.getD h.channel 0)
+        = ((List.range' (max 0 (-s)).toNat ((min (h.wave.length : Int) (p.length - s)).toNat - (max 0 (-s)).toNat)).map
+            (fun k => h.wave.getD k 0)).map (fun x => x * toPe.getD h.channel 0) := by
+      rw [List.map_map]; rfl
+    rw [hc, hm]
+    rfl
+  · have hemp : (List.range h.wave.length).filter
+        (fun k => decide ((max 0 (-s)).toNat ≤ k) && decide (k < (min (h.wave.length : Int) (p.length - s)).toNat)) = [] := by
+      rw [List.filter_eq_nil_iff]
+      intro k _
+      simp; omega
+    rw [hemp, slice_nil_of_le _ (by omega)]
+    simp
+
+
+/-- the index range `overlap_indices` cuts out of the hit is the definitional one (or both are empty) -/
+theorem overlap_clip {α} (wave : List α) (a1 nA b1 L s hs he ps pe : Int)
+    (hov : overlapIndices a1 nA b1 L = .ok ((hs, he), (ps, pe))) (hsd : a1 - b1 = s)
+    (hw : (wave.length : Int) = nA) :
+    slice wave hs.toNat he.toNat = slice wave (max 0 (-s)).toNat (min (wave.length : Int) (L - s)).toNat := by
+  unfold overlapIndices at hov
+  rw [hsd] at hov
+  have hz : ∀ (lo hi : Nat), hi ≤ lo → slice wave 0 0 = slice wave lo hi := by
+    intro lo hi h; rw [slice_nil_of_le wave h, slice_nil_of_le wave (Nat.le_refl 0)]
+  split at hov
+  · simp at hov
+  · rename_i h1
+    simp at h1
+    split at hov
+    · rename_i h2
+      simp at hov h2
+      obtain ⟨⟨rfl, rfl⟩, _⟩ := hov
+      exact hz _ _ (by omega)
+    · rename_i h2
+      simp at h2
+      simp only [] at hov
+      split at hov
+      · simp at hov
+        obtain ⟨⟨rfl, rfl⟩, _⟩ := hov
+        exact hz _ _ (by omega)
+      · split at hov
+        · simp at hov
+          obtain ⟨⟨rfl, rfl⟩, _⟩ := hov
+          exact hz _ _ (by omega)
+        · simp at hov
+          obtain ⟨⟨rfl, rfl⟩, _⟩ := hov
+          congr 2 <;> omega
+
+
+theorem fdiv_neg_mul (s dt : Int) (hdt : 0 < dt) : Int.fdiv (-(s * dt)) dt = -s := by
+  rw [Int.fdiv_eq_ediv_of_nonneg _ (Int.le_of_lt hdt), ← Int.neg_mul]
+  exact Int.mul_ediv_cancel _ (by omega)
+
+theorem fdiv_add_mul (a s dt : Int) (hdt : 0 < dt) : Int.fdiv (a + s * dt) dt = Int.fdiv a dt + s := by
+  rw [Int.fdiv_eq_ediv_of_nonneg _ (Int.le_of_lt hdt), Int.fdiv_eq_ediv_of_nonneg _ (Int.le_of_lt hdt)]
+  exact Int.add_mul_ediv_right _ _ (by omega)
+
+/-- a hit that starts at or after the end of the peak contributes nothing -/
+theorem contribution_right (p : Peak) (dt : Int) (toPe : List Rat) (h : Hit) (s : Int)
+    (hdt : 0 < dt) (hs : h.time = p.time + s * dt) (hr : p.length ≤ s) : contribution p dt toPe h = 0 := by
+  rw [contribution_interval p dt toPe h s hdt hs, slice_nil_of_le _ (by omega)]
+  rfl
+
+/-- **area = Σ hit contributions**: the hit scan of `sum_waveform` adds, for every hit of a time-sorted list on
+the sample grid of the peak, exactly its definitional contribution (the samples lying inside the peak, in PE) -/
+theorem scanPeakHits_contributions (p : Peak) (dt : Int) (toPe : List Rat) (hdt : 0 < dt) :
+    ∀ (hits : List Hit) (acc acc' : SumAcc), scanPeakHits p dt toPe hits acc = .ok acc' →
+      (∀ h ∈ hits, ∃ s : Int, h.time = p.time + s * dt) →
+      (∀ h ∈ hits, (h.wave.length : Int) = h.length) →
+      hits.Pairwise (fun a b => a.time ≤ b.time) →
+      acc'.area = acc.area + (hits.map (contribution p dt toPe)).sum := by
+  intro hits
+  induction hits with
+  | nil => intro acc acc' h _ _ _; simp [scanPeakHits] at h; subst h; simp [Rat.add_zero]
+  | cons x rest ih =>
+    intro acc acc' h hal hwl hsort
+    obtain ⟨s, hs⟩ := hal x (by simp)
+    have hsh : Int.fdiv (p.time - x.time) dt = -s := by
+      rw [hs, show p.time - (p.time + s * dt) = -(s * dt) by omega]; exact fdiv_neg_mul s dt hdt
+    have hso := List.pairwise_cons.mp hsort
+    unfold scanPeakHits at h
+    split at h
+    · simp at h
+    · simp only [hsh] at h
+      split at h
+      · -- break: this hit and all later ones start behind the peak
+        rename_i hbr
+        simp only [Except.ok.injEq] at h
+        subst h
+        have hz : ∀ y ∈ x :: rest, contribution p dt toPe y = 0 := by
+          intro y hy
+          obtain ⟨sy, hsy⟩ := hal y hy
+          apply contribution_right p dt toPe y sy hdt hsy
+          have hxy : x.time ≤ y.time := by
+            rcases List.mem_cons.mp hy with rfl | hy'
+            · exact Int.le_refl _
+            · exact hso.1 y hy'
+          have : s * dt ≤ sy * dt := by omega
+          have := (Int.mul_le_mul_right hdt).mp this
+          omega
+        have : ((x :: rest).map (contribution p dt toPe)).sum = 0 := by
+          have : (x :: rest).map (contribution p dt toPe) = (x :: rest).map (fun _ => (0 : Rat)) :=
+            List.map_congr_left hz
+          rw [this]
+          clear hz this
+          induction (x :: rest) with
+          | nil => rfl
+          | cons a l ih2 => simp only [List.map_cons, List.sum_cons, ih2]; exact Rat.add_zero 0
+        rw [this, Rat.add_zero]
+      · split at h
+        · -- continue: the hit ends before the peak starts
+          rename_i hbr hct
+          have hx0 : contribution p dt toPe x = 0 := by
+            rw [contribution_interval p dt toPe x s hdt hs, slice_nil_of_le _ (by have := hwl x (by simp); omega)]
+            rfl
+          rw [ih acc acc' h (fun y hy => hal y (by simp [hy])) (fun y hy => hwl y (by simp [hy])) hso.2]
+          simp only [List.map_cons, List.sum_cons, hx0, Rat.zero_add]
+        · split at h
+          · simp at h
+          · rename_i hbr hct hs' he' ps pe hov
+            have hsd : Int.fdiv x.time dt - Int.fdiv p.time dt = s := by
+              rw [hs, fdiv_add_mul _ _ _ hdt]; omega
+            have hclip := overlap_clip x.wave _ _ _ _ s _ _ _ _ hov hsd (hwl x (by simp))
+            have hx : ((slice x.wave hs'.toNat he'.toNat).map (· * toPe.getD x.channel 0)).sum = contribution p dt toPe x := by
+              rw [contribution_interval p dt toPe x s hdt hs, hclip]
+            rw [ih _ acc' h (fun y hy => hal y (by simp [hy])) (fun y hy => hwl y (by simp [hy])) hso.2]
+            simp only [List.map_cons, List.sum_cons, hx]
+            grind
+
+
+/-- a hit that ends at or before the start of the peak contributes nothing -/
+theorem contribution_left (p : Peak) (dt : Int) (toPe : List Rat) (h : Hit) (s : Int)
+    (hdt : 0 < dt) (hs : h.time = p.time + s * dt) (hw : (h.wave.length : Int) = h.length)
+    (hl : h.time + h.length * dt ≤ p.time) : contribution p dt toPe h = 0 := by
+  have : (s + h.length) * dt ≤ 0 * dt := by rw [Int.add_mul]; omega
+  have := (Int.mul_le_mul_right hdt).mp this
+  rw [contribution_interval p dt toPe h s hdt hs, slice_nil_of_le _ (by omega)]
+  rfl
+
+theorem firstContributing_split (p : Peak) (dt : Int) : ∀ (hits hits' : List Hit),
+    firstContributing p dt hits = some hits' →
+    ∃ skipped, hits = skipped ++ hits' ∧ ∀ h ∈ skipped, h.time + h.length * dt ≤ p.time := by
+  intro hits
+  induction hits with
+  | nil => intro hits' h; simp [firstContributing] at h
+  | cons y rest ih =>
+    intro hits' h
+    unfold firstContributing at h
+    split at h
+    · simp at h; subst h; exact ⟨[], rfl, by simp⟩
+    · rename_i hn
+      obtain ⟨sk, e, hsk⟩ := ih hits' h
+      refine ⟨y :: sk, by rw [e]; rfl, ?_⟩
+      intro z hz
+      rcases List.mem_cons.mp hz with rfl | hz
+      · omega
+      · exact hsk z hz
+
+theorem sum_map_zero {α} (l : List α) (f : α → Rat) (h : ∀ x ∈ l, f x = 0) : (l.map f).sum = 0 := by
+  induction l with
+  | nil => rfl
+  | cons a l ih =>
+    simp only [List.map_cons, List.sum_cons, h a (by simp), ih (fun x hx => h x (by simp [hx]))]
+    exact Rat.add_zero 0
+
+/-- one peak of `sum_waveform`, started at its first contributing hit: its area is the sum of the definitional
+contributions of ALL hits (time-sorted, on the peak's sample grid, each carrying its `length` samples) -/
+theorem sumOnePeak_contributions (dt : Int) (toPe : List Rat) (nCh : Nat) (p q : Peak) (hits hits' : List Hit) (buf : List Rat)
+    (hdt : 0 < dt)
+    (hal : ∀ h ∈ hits, ∃ s : Int, h.time = p.time + s * dt) (hwl : ∀ h ∈ hits, (h.wave.length : Int) = h.length)
+    (hsort : hits.Pairwise (fun a b => a.time ≤ b.time))
+    (hfc : firstContributing p dt hits = some hits') (h : sumOnePeak dt toPe nCh p hits' = .ok (q, buf)) :
+    q.area = (hits.map (contribution p dt toPe)).sum := by
+  obtain ⟨sk, e, hsk⟩ := firstContributing_split p dt hits hits' hfc
+  unfold sumOnePeak at h
+  split at h
+  · simp at h
+  · rename_i acc hacc
+    simp only [Except.ok.injEq, Prod.mk.injEq] at h
+    have hq : q.area = acc.area := by
+      rw [← h.1]; unfold storeDownsampled; simp only []; split <;> rfl
+    have hmem : ∀ x ∈ hits', x ∈ hits := fun x hx => by rw [e]; exact List.mem_append_right _ hx
+    have hs' : hits'.Pairwise (fun a b => a.time ≤ b.time) := by
+      rw [e] at hsort; exact (List.pairwise_append.mp hsort).2.1
+    have := scanPeakHits_contributions p dt toPe hdt hits' _ acc hacc
+      (fun x hx => hal x (hmem x hx)) (fun x hx => hwl x (hmem x hx)) hs'
+    rw [hq, this, e, List.map_append, List.sum_append]
+    have hz := sum_map_zero sk (contribution p dt toPe) (by
+      intro x hx
+      have hx' : x ∈ hits := by rw [e]; exact List.mem_append_left _ hx
+      obtain ⟨s, hs⟩ := hal x hx'
+      exact contribution_left p dt toPe x s hdt hs (hwl x hx') (hsk x hx))
+    rw [hz]
+
+
+/-- a result row always has exactly `bufSize` interval slots: the maximal runs followed by zero slots when they
+fit, all `-1` when there are more runs than slots -/
+theorem hdrRow_spec (bufSize : Nat) (ind : List Nat) :
+    (hdrRow bufSize ind).length = bufSize ∧
+    ((runsOf ind).length ≤ bufSize →
+      hdrRow bufSize ind = ((runsOf ind).map fun r => ((r.1 : Int), (r.2 : Int))) ++ List.replicate (bufSize - (runsOf ind).length) (0, 0)) ∧
+    (bufSize < (runsOf ind).length → hdrRow bufSize ind = List.replicate bufSize (-1, -1)) := by
+  unfold hdrRow hdrRowGen
+  simp only [if_true]
+  by_cases h : (runsOf ind).length - 1 ≥ bufSize
+  · simp only [h, decide_true, if_true, List.length_replicate]
+    refine ⟨trivial, ?_, fun _ => trivial⟩
+    intro hle
+    have h0 : (runsOf ind).length = 0 ∧ bufSize = 0 := by omega
+    have : runsOf ind = [] := List.eq_nil_of_length_eq_zero h0.1
+    simp [this, h0.2]
+  · simp only [h, decide_false, if_false, Bool.false_eq_true]
+    refine ⟨by simp; omega, fun _ => trivial, fun hlt => by omega⟩
+
+
 end Strax.Peaks
